@@ -4,7 +4,7 @@ VIEW View
 CONSTANTS
   MaxDepth = 2
   LawDepth = 0
-  SeedBodies <- Bodies
+  SeedBodies <- MapBodies
   SeedLayers <- MapLayers
   SeedWraps <- PlainWrap
 INVARIANT C14_SetGet
